@@ -376,6 +376,8 @@ def core_pool():
     t3 = named_table('Verif.Outer', [(5, True, t1), (6, True, vec(t1)), (70000, True, S('i8'))])
     t4 = ('tab', 0, [(1, True, h0), (2, True, ('opt', S('u8')))])
     P += [t1, t2, t3, t4, st(t1, S('u16')), vec(t2)]
+    # finding K1: Optional/Result whose payload can itself start with NIL/ERR (not prefix-disjoint)
+    P += [('opt', ('opt', S('u8'))), ('res', 1, 'i32', ('res', 2, 'u8', S('u8')))]
     return P
 
 
